@@ -317,6 +317,22 @@ func runC16(c *Case) {
 			}
 		}
 	}
+	// another OS process, given only the bucket, reads what the last committer sees
+	if c.Res.Status != "violated" && c.Index%4 == 0 {
+		w := ws[0]
+		if err := w.conn.Exec("select s3db_refresh('" + w.table + "')"); err == nil {
+			own, err := w.conn.Dump(w.table)
+			if err == nil {
+				rows, cerr := runChildRead(c, st.Snapshot(), "k PRIMARY KEY, a, b", prefix)
+				c.Count("other_process_reads", 1)
+				if cerr != nil {
+					c.Violate(sigp+"other-process-read-error", "a separate process given the bucket as a file cannot read the table: "+cerr.Error(), prog)
+				} else if d := firstDiff(own, rows); d != "" {
+					c.Violate(sigp+"other-process-differs", "a separate process reads different rows than the committer: "+d, prog)
+				}
+			}
+		}
+	}
 	c.Count("statements", int64(stmtNo))
 	c.Count("requests", int64(st.LogLen()))
 	if c.Res.NonTrivial {
